@@ -7,14 +7,15 @@ from . import harness as H, core, engine
 def main(path):
     c = json.load(open(path))
     work = H.scratch_dir()
-    ws = [H.Wrapper(d['name'], d['in_ty'], d['n_in'], d['out_ty'], d['n_out'], d['body'], d['n_iout']) for d in c['wrappers']]
+    ws = [H.Wrapper(d['name'], d['in_ty'], d['n_in'], d['out_ty'], d['n_out'], d['body'], d['n_iout'], None, d.get('n_iin', 0)) for d in c['wrappers']]
     u = H.Unit(work, 'replay', c['includes'], ws, c.get('extra_src', ''))
     u.compiled = ws
     u.compile_native()
     by = {w.name: w for w in ws}
     w = by[c['impl']]
     xs = [core.parse_hexf(s, w.in_ty) for s in c['inputs']]
-    o, io = u.call_native(w, xs)
+    ks = c.get('iinputs', [])
+    o, io = u.call_native(w, xs, ks)
     print('property   :', c['property'])
     print('obligation :', c['obligation'])
     print('statement  :', c['statement'])
@@ -22,7 +23,7 @@ def main(path):
     print('impl out   :', [repr(x) for x in o], list(io))
     bad = False
     if c['kind'] == 'pair':
-        o2, io2 = u.call_native(by[c['ref']], xs)
+        o2, io2 = u.call_native(by[c['ref']], xs, ks)
         print('reference  :', [repr(x) for x in o2], list(io2))
         bad = any(not engine.same_float(a, b) for a, b in zip(o, o2)) or list(io) != list(io2)
     elif c['kind'] == 'values':
